@@ -117,6 +117,8 @@ func refStep(v interface{}, key string, assert bool) (interface{}, string) {
 	return nil, "unspec" // scalars, slices, functions, pointers to structs: not asserted
 }
 
+var c16Shared *formula.Runner
+
 // checkPath evaluates the path and compares with the reference lookup.
 func checkPath(c pathCase) (msg string, class string) {
 	rec := &spec.Recorder{}
@@ -179,6 +181,19 @@ func checkPath(c pathCase) (msg string, class string) {
 	// reading is reading: the caller's data (every entry, nested values included, with their Go types) is as it was
 	if after := obs.Snapshot(data, func(string) bool { return true }); after != before {
 		return fmt.Sprintf("evaluating the read-only path %s changed the caller's data:\nbefore %s\nafter  %s", text, before, after), "data-changed"
+	}
+	// One runner lives as long as the process and has served every earlier case - the failing ones
+	// ('!.' on null) included. Handed this case's data it must answer like the new one.
+	if c16Shared == nil {
+		c16Shared = formula.NewRunner()
+	}
+	if c.NoMap {
+		c16Shared.SetThis(nil)
+	} else {
+		c16Shared.SetThis(data)
+	}
+	if so := obs.Eval(c16Shared, context.Background(), p.Src.Expression); so.String() != out.String() {
+		return fmt.Sprintf("%s: a new runner gives %s, a runner that served all earlier cases (errors included) and was then handed the same data gives %s", text, out, so), "used-runner"
 	}
 	if outcome == "err" {
 		if out.Err == nil {
@@ -288,6 +303,18 @@ func init() {
 		c, err := h.Decode[pathCase](raw)
 		if err != nil {
 			return "bad replay: " + err.Error()
+		}
+		// a replay starts in a new process: give the long-lived runner a past first (200 evaluations, half of them failing)
+		if c16Shared == nil {
+			c16Shared = formula.NewRunner()
+			c16Shared.SetThis(map[string]interface{}{"a": map[string]interface{}{"b": 1}, "n": nil})
+			for k := 0; k < 50; k++ {
+				for _, f := range []string{"zz!.a", "a.b", "n!.x.y", "a.zz!.k + 1"} {
+					if q := obs.Parse([]byte(f)); q.OK() {
+						obs.Eval(c16Shared, context.Background(), q.Src.Expression)
+					}
+				}
+			}
 		}
 		m, _ := checkPath(c)
 		return m
